@@ -3,11 +3,13 @@
 #   trace: library, REST layer and selected std packages with the compiler's libFuzzer comparison instrumentation (C09)
 #   fuzz : plain build with native-fuzzing coverage instrumentation (FuzzC19, in-process REST router)
 MODE=${3:-trace}
+XT=""
+case "$MODE" in *:nowasmmain) XT=" nowasmmain"; MODE=${MODE%%:*};; esac
 if [ "$MODE" = "fuzz" ]; then
-  exec go test -c -vet=off $4 -tags "verif" -overlay "$2" -fuzz=Fuzz -o "$1" .
+  exec go test -c -vet=off $4 -tags "verif$XT" -overlay "$2" -fuzz=Fuzz -o "$1" .
 fi
 G="-d=libfuzzer"
-exec go test -c -vet=off $4 -tags "libfuzzer verif" -overlay "$2" \
+exec go test -c -vet=off $4 -tags "libfuzzer verif$XT" -overlay "$2" \
   -gcflags=github.com/ja7ad/otp/...=$G -gcflags=bytes=$G -gcflags=strings=$G -gcflags=slices=$G \
   -gcflags=reflect=$G -gcflags=crypto/subtle=$G -gcflags=crypto/internal/fips140/subtle=$G \
   -o "$1" .
